@@ -91,9 +91,15 @@ func runCompile(args []*Sexp) (out *Sexp) {
 			return L(A("err"), A(errClass(err)))
 		}
 		return L(A("ok"), bytecodeFns(bc))
-	case "evalfail":
-		// a session in which an earlier script failed to compile after importing modules
+	case "evalfail", "evalfail2":
+		// a session in which an earlier script failed to compile after importing modules; evalfail2: the
+		// session already has a module (from a script that compiled and ran) when that happens
 		ev := ugo.NewEval(opts, nil)
+		if mode == "evalfail2" {
+			if _, _, err := ev.Run(context.Background(), []byte("p0 := import(\"vmod\")\np1 := 1")); err != nil {
+				return L(A("err"), A("evalfail2-setup"))
+			}
+		}
 		if _, _, err := ev.Run(context.Background(), []byte("q0 := import(\"m1\")\nq1 := import(\"time\")\nq2 := import(\"nosuchmodule\")")); err == nil {
 			return L(A("err"), A("evalfail-setup"))
 		}
